@@ -367,8 +367,10 @@ def run_witnesses(res, rng=None):
 # the deck stream
 # --------------------------------------------------------------------------
 
-def check_deck(res, deck, text, rng, coq_cases, metas, args=()):
-    conv, cap = convert_captured(text, args)
+def check_deck(res, deck, text, rng, coq_cases, metas, args=(), trace=True):
+    import c01_cov
+    with c01_cov.traced(trace):
+        conv, cap = convert_captured(text, args)
     res.seen(text, nontrivial=len(deck['cells']) >= 2)
     payload = {'input': {'deck': text, 'args': list(args)}}
     if not conv.ok and conv.exc == 'ValueError' and 'max()' in conv.msg:
@@ -459,7 +461,8 @@ def run_decks(res, rng, n_decks):
             args.append('--skip-deduplication')
         if rng.random() < 0.3:
             args += ['--max-inline-score', '0']
-        check_deck(res, deck, text, rng, coq_cases, metas, args)
+        check_deck(res, deck, text, rng, coq_cases, metas, args,
+                   trace=len(metas) < 25)
     if metas:
         res.sample({'deck': metas[0][0]})
     bad, errs = common.run_case_files('c01_decks', HEADER, 'case',
